@@ -36,8 +36,20 @@ def main():
     for t in range(int(a["trials"])):
         nR = int(rng.choice([33, 49, 65, 97, 129]))
         nZ = int(rng.choice([33, 65, 97]))
-        topo = str(rng.choice(["lsn", "usn", "cdn", "ldn", "udn", "udn2"]))
-        e_ = {"topo": topo, "s": float(rng.choice([-1, 1])), "nR": nR, "nZ": nZ, "shift": [float(rng.uniform(-0.03, 0.03)), float(rng.uniform(-0.03, 0.03))], "w": float(rng.uniform(0.28, 0.32)), "a2": float(rng.uniform(0.9, 1.1)), "eps": float(rng.uniform(0.001, 0.02)), "Zlim": [-0.9, 0.9]}
+        topo = str(rng.choice(["lsn", "usn", "cdn", "ldn", "udn", "udn2", "pair", "pair"]))
+        if topo == "pair":
+            # two equal blobs at a random angle: the saddle between them has principal axes along /
+            # across that direction and a curvature ratio that grows with the separation
+            wq = float(rng.uniform(0.18, 0.22))
+            sep = float(rng.uniform(2.3, 3.6)) * wq
+            ang = float(rng.uniform(0, 2 * np.pi))
+            cR, cZ = 1.5 + float(rng.uniform(-0.02, 0.02)), float(rng.uniform(-0.02, 0.02))
+            # the first blob sits nearest the domain centre (primary O-point)
+            cen = [[cR, cZ, 1.0, wq], [cR + sep * np.cos(ang), cZ + sep * np.sin(ang), 1.0, wq]]
+            e_ = {"topo": "custom", "centres": cen, "s": float(rng.choice([-1, 1])), "nR": nR, "nZ": nZ, "Rlim": [0.6, 2.4], "Zlim": [-0.9, 0.9], "angle_deg": float(np.degrees(ang))}
+        else:
+            e_ = None
+        e_ = e_ or {"topo": topo, "s": float(rng.choice([-1, 1])), "nR": nR, "nZ": nZ, "shift": [float(rng.uniform(-0.03, 0.03)), float(rng.uniform(-0.03, 0.03))], "w": float(rng.uniform(0.28, 0.32)), "a2": float(rng.uniform(0.9, 1.1)), "eps": float(rng.uniform(0.001, 0.02)), "Zlim": [-0.9, 0.9]}
         fam = families.GaussFamily(e_)
         R1D, Z1D, psi2D, psi1D, fpol1D, pres = fam.arrays()
         R2, Z2 = np.meshgrid(R1D, Z1D, indexing="ij")
@@ -53,7 +65,7 @@ def main():
         prim = orO_i[0] if orO_i else None
         nexec += 1
         op, xp = quiet_call(critical.find_critical, R2, Z2, psi2D, 1e-6, 1000)
-        cls = "find_critical|%s|%s" % (topo, "s+" if e_["s"] > 0 else "s-")
+        cls = "find_critical|%s|%s" % (topo if topo != "pair" else "pair(diagonal)" if 20 < (e_["angle_deg"] % 90) < 70 else "pair(axis-aligned)", "s+" if e_["s"] > 0 else "s-")
         where = dict(e_)
         distinct += 1
         if len(samples) < 2:
@@ -89,7 +101,12 @@ def main():
         # gradient vanishes at the returned points to the requested tolerance (Bp^2 < atol)
         for c in list(op) + list(xp):
             gR, gZ = fam.grad(c[0], c[1])
-            acc.add("|Bp|^2 at returned points below xpoint_refine_atol (analytic gradient)", cls, (gR**2 + gZ**2) / c[0] ** 2, 1e-5, where=where, note="code: spline Bp^2<1e-6; analytic gradient differs by the interpolation error")
+            hRR, hRZ, hZZ = fam.hess(c[0], c[1])
+            Hm = max(abs(hRR), abs(hRZ), abs(hZZ))
+            # the code stops at spline Bp^2 < 1e-6; at that point the analytic gradient is at most
+            # |Hessian| x (position error <= 0.05 h) away from zero
+            thr = 1e-5 + (1.5 * Hm * 0.05 * hgrid / c[0]) ** 2
+            acc.add("|Bp|^2 at returned points small (analytic gradient; bound from the position accuracy)", cls, (gR**2 + gZ**2) / c[0] ** 2, thr, where=where)
         # ---- single/double-null decision and leg labelling --------------------------------
         if topo in ("ldn", "udn", "udn2", "cdn", "lsn", "usn") and len(orX_v) >= 1 and nR >= 49:
             pa_, pb_ = fam.psi_axis, fam.psi_bdry
